@@ -195,6 +195,81 @@ def worker(ki: int, n: int, encrypt: bool, seed: int, pairs: str = "none", zero_
     return part
 
 
+def w_rekey(depth: int, seed: int) -> Part:
+    """"Using a different key" after the key table was replaced: every sequence (length <= depth) of CEMIHandler.data_secure_init calls over
+    {keyring with key A, keyring with key B, keyring with both groups under swapped keys, no keyring} on ONE XKNX object, then frames
+    secured with A and with B (both algorithms, fresh sequence numbers): a frame is delivered iff the LAST keyring assigns exactly that
+    key to its group address - what an earlier session knew must not authenticate anything."""
+    import itertools
+
+    from xknx import XKNX
+    from xknx.secure.keyring import Keyring, XMLDevice, XMLGroupAddress
+    from xknx.telegram import GroupAddress
+
+    part = Part()
+    ka, kb = bytes(range(16)), bytes(seed_bytes(seed, 16, 77)) if seed else bytes(range(16, 32))
+    ga2 = GA + 1
+
+    def keyring(table: dict[int, bytes]) -> Any:
+        kr = Keyring()
+        for ga, key in table.items():
+            g = XMLGroupAddress()
+            g.address = GroupAddress(ga)
+            g.decrypted_key = key
+            kr.group_addresses.append(g)
+        d = XMLDevice()
+        d.individual_address = IndividualAddress(SA)
+        d.sequence_number = 3
+        kr.devices.append(d)
+        return kr
+
+    tables: dict[str, dict[int, bytes] | None] = {"A": {GA: ka}, "B": {GA: kb}, "AB": {GA: ka, ga2: kb}, "BA": {GA: kb, ga2: ka}, "none": None}
+    orig = Management.process
+    Management.process = lambda self, telegram: None  # type: ignore[method-assign]
+    try:
+        for n in range(1, depth + 1):
+            for hist in itertools.product(tables, repeat=n):
+                if hist[-1] == "none":
+                    continue   # without a keyring nothing is secured: not this property's subject
+                xknx = XKNX()
+                xknx.current_address = IndividualAddress(0x1105)
+                case = {"kind": "rekey", "hist": list(hist), "seed": seed}
+                try:
+                    for h in hist:
+                        t = tables[h]
+                        xknx.cemi_handler.data_secure_init(None if t is None else keyring(t))
+                except Exception as exc:  # noqa: BLE001
+                    part.viol(exc_sig("data-secure-init-raises", exc), f"{case}: {exc!r}", case)
+                    continue
+                last = tables[hist[-1]] or {}
+                seq = 0x100
+                for ga in (GA, ga2):
+                    for kname, key in (("A", ka), ("B", kb)):
+                        for enc in (True, False):
+                            seq += 1
+                            part.evaluations += 1
+                            part.nontrivial += 1
+                            part.state((hist, ga, kname, enc))
+                            raw = secure_frame(key, SA, ga, seq, apdu_of(2), encrypt=enc)
+                            try:
+                                xknx.cemi_handler.handle_raw_cemi(raw)
+                            except BaseException as exc:  # noqa: BLE001
+                                part.viol(exc_sig("rekey-frame-raises", exc), f"{case} ga={ga:#06x} key={kname}: {exc!r}", case)
+                                continue
+                            got = []
+                            while not xknx.telegrams.empty():
+                                got.append(xknx.telegrams.get_nowait())
+                            expect = last.get(ga) == key
+                            part.outcomes["delivered" if got else "discarded"] += 1
+                            if got and not expect:
+                                part.viol("frame-under-superseded-or-foreign-key-delivered:rekey", f"{case}: frame to {ga:#06x} secured with key {kname} ({'enc' if enc else 'auth'}) delivered although the current keyring gives that address {'no key' if ga not in last else 'another key'}: {got}", case, rank=(n,))
+                            elif expect and len(got) != 1:
+                                part.viol("frame-under-current-key-not-delivered:rekey", f"{case}: frame to {ga:#06x} secured with the current key {kname} ({'enc' if enc else 'auth'}) -> {got}", case, rank=(n,))
+    finally:
+        Management.process = orig  # type: ignore[method-assign]
+    return part
+
+
 def run(ctx: Ctx) -> None:
     lens = LENGTHS + ([3, 13, 17, 64, 120] if ctx.thorough else [])
     ctx.rule = (
@@ -205,9 +280,15 @@ def run(ctx: Ctx) -> None:
         "and PAIRS of bit flips (thorough: every pair of bits of every frame up to 17 APDU octets; otherwise all pairs within the control, TPCI, SCF, first/last secured octets and MAC)"
     )
     ctx.pmap(worker, [(k, n, enc, ctx.seed, ("all" if n <= 17 else "some") if ctx.thorough else ("some" if n in (1, 2, 5) else "none"), zt) for k in (0, 1) for n in lens for enc in (True, False) for zt in (False, True) if not (zt and n == 1)])
+    ctx.rule += ("; plus key replacement: every sequence of up to %d data_secure_init calls over {key A, key B, both groups A/B, both groups B/A, no keyring} on one XKNX object, then frames under A and B "
+                 "to both group addresses x both algorithms: delivered iff the LAST keyring gives that address exactly that key" % (4 if ctx.thorough else 3))
+    ctx.pmap(w_rekey, [(4 if ctx.thorough else 3, ctx.seed)])
 
 
 def replay(case: Any) -> list[tuple[str, str]]:
+    if case.get("kind") == "rekey":
+        part = w_rekey(max(4, len(case["hist"])), case.get("seed", 0))
+        return [(s, v[1]) for s, v in part.viols.items()]
     part = Part()
     orig = Management.process
     Management.process = lambda self, telegram: None  # type: ignore[method-assign]
